@@ -32,6 +32,8 @@ POOL = [
     ("rw", "re", r"\w+"), ("raz", "re", "[a-z]+"), ("ra", "re", "a"), ("ralt", "re", "a|ab"),
     ("rdig", "re", r"[a-z]+\d"), ("rfor", "re", "for"),
     ("cab", "custom", "ab"), ("cap", "custom", "a+"), ("cw", "custom2", r"\w\w"),
+    # names that sort after / before the string terminals' names (the scan order breaks ties by name)
+    ("zw", "re", r"\w+"), ("zaz", "re", "[a-z]+"), ("aw", "re", r"\w+"), ("zabcd", "str", "abcd"), ("aaab", "str", "aab"),
 ]
 TEXTS = ["a", "ab", "abc", "abcd", "aab", "aa", "b", "ba", "abab", "A", "AB", "Ab", "aB", "for", "fork", "fo",
          "for1", "fora", "f", "c", "1", "a1", "ab1", "", " a", "a b", "abc1"]
